@@ -476,7 +476,8 @@ def run_conf(args):
         except Exception as e:
             res["etp"].append(None)
         if (len(res["hcases"]) < 3 and name in ("exact", "widen", "flags-forced", "preset-only", "base-formats")
-                or name.startswith("restrict:custom_") or name.startswith("multi-")):
+                or name.startswith("restrict:custom_")
+                or (name.startswith("multi-") and len(res["hcases"]) < 6)):
             try:
                 hc = header_case(I, conf, spec)
                 if hc is not None:
